@@ -71,7 +71,8 @@ def char_soup(rng, max_len=14):
     return "".join(rng.choice(SOUP_ALPHABET) for _ in range(rng.randint(1, max_len)))
 
 
-LIT_PIECES = ["1", "12", "255", " ", "  ", "é", "€", "٣", "a", "z", "\\", "\\n", "\\u{22}", "😀", "_", ".", "0", "x", "\t"]
+LIT_PIECES = ["1", "12", "255", " ", "  ", "é", "€", "٣", "a", "z", "\\", "\\n", "\\u{22}", "😀", "_", ".", "0", "x", "\t",
+              "\\u{1é_2}", "\\u{٣}", "\\u{_}", "\\u{", "}", "1é_2", "٣_1"]
 
 
 def literal_soup(rng):
@@ -85,8 +86,8 @@ def literal_soup(rng):
         close = q * (n if rng.random() < 0.85 else rng.randint(1, 5))
         lit = q * n + body + close
     else:
-        lit = rng.choice(["0", "1", "9", "016", "036", "010", "2", "0x"]) + rng.choice(["_", "", "__"]) + \
-              "".join(rng.choice("0123456789azAZ_.") for _ in range(rng.randint(1, 6)))
+        lit = rng.choice(["0", "1", "9", "016", "036", "010", "2", "0x", "1é", "٣", "é1"]) + rng.choice(["_", "", "__"]) + \
+              "".join(rng.choice(list("0123456789azAZ_.") + ["é", "٣", "_", "_"]) for _ in range(rng.randint(1, 6)))
     pre = rng.choice(["", "", "5 + ", "(", "a ", ":s "])
     post = rng.choice(["", "", " + 5", ")", " b", ".0"])
     return pre + lit + post
